@@ -58,7 +58,10 @@ TEXT = {
                  'the failing bounds check every container satisfies the safe-to-drop invariant with len unchanged '
                  '(ESC-own); len <= N is inductive (CAP); an insertion returns normally with a new entry only '
                  'when len < N held, the last free slot is usable (some accepted append is consistent with len == N-1), '
-                 'and a bulk constructor never drops a pulled item silently.',
+                 'and a bulk constructor never drops a pulled item silently; conversely (REFUSAL rule) every path on which the crate '
+                 'panics by itself -- panic!, assert!, expect, a failing bounds check -- is justified at the panic point by a container '
+                 'that is full and was scanned completely for the key without a match (Index/IndexMut: by the complete miss alone), '
+                 'so a present key is never refused on a full container.',
         'note': BASE + '; panic=abort profiles and sanitizer observations are out of scope',
     },
     'C04': {
@@ -115,7 +118,9 @@ TEXT.update({
                  'Set::replace, VacantEntry::insert, Entry::or_insert*, OccupiedEntry::insert) the slot whose key '
                  'compared equal ends up holding exactly (originally stored key | supplied key, supplied value) as '
                  'the statement demands, no other slot changes, and the displaced objects are what is returned; '
-                 'get_key_value, Set::get, take, remove_entry and OccupiedEntry::key expose the key of the matching slot itself.',
+                 'get_key_value, Set::get, take, remove_entry and OccupiedEntry::key expose the key of the matching slot itself. '
+                 'The bulk insertion paths (FromIterator, From<[_; N]>, Extend, and -- on the serde build -- the deserialisation '
+                 'visitors) are covered through their per-item schema: for a repeated key the first key object stays.',
         'note': BASE + '; mem::replace model; the dropped/returned fate of moved-out values is the compiler\'s drop elaboration',
     },
     'C01': {
@@ -126,7 +131,7 @@ TEXT.update({
                  'happened on it (user == answered true for slot h and the supplied key / a slot was appended after '
                  'every live key answered false / full-prefix miss) and the final len, the touched slots, their '
                  'contents and the returned value must equal the row of the ideal-dictionary table; "not found" is '
-                 'only accepted after a completed scan of [0,len); Index returns normally only on the found class. '
+                 'only accepted after a completed scan of [0,len); Index returns normally only on the found class; the crate panics by itself only to refuse a new key on a full container or to index an absent key (REFUSAL rule, justified at the panic point). '
                  + PARTIAL,
         'note': BASE,
     },
@@ -229,8 +234,11 @@ TEXT.update({
                  '(O1/O2); the pre-check is shown to compare EVERY pair i < j < J of the request array before the container is '
                  'touched (positions of the caller\'s array are tracked; PAIRS rule); every answer written for request j is the '
                  'value of a slot whose key was seen to match request j (AGREE rule: the index list only ever receives '
-                 'recorded matches, and an answer must be backed by a pair read back from it). NOT decided: completeness '
-                 '(a present key always gets an answer; e.g. requests skipped through a bit mask that aliases for J > 64).',
+                 'recorded matches, and an answer must be backed by a pair read back from it); while the requests are scanned for a '
+                 'stored key through find/position/any/all, a request is declared (non-)matching only by the answer of the user == '
+                 '(ANSWER rule: a size pre-filter or a constant in the predicate is refuted). NOT decided in general: completeness '
+                 'for hand-written request loops (a present key always gets an answer; e.g. requests skipped through a bit mask '
+                 'that aliases for J > 64).',
         'note': BASE,
     },
     'C14': {
@@ -259,14 +267,14 @@ TEXT.update({
         'level': 'Partial (level other). FromIterator (Map, Set), From<[_; N]>, Extend<T>/Extend<&T>: the result is built '
                  'from new() (or self), the source is turned into an iterator once, each loop iteration advances the '
                  'source exactly once and performs exactly one insertion of that very item: appended after a full miss, '
-                 'or (repeated key) the first key object is kept, the new value stored, no capacity consumed. Not '
+                 'or (repeated key) the first key object is kept, the new value stored, no capacity consumed; extend inserts into the receiver itself (not into a temporary that replaces it afterwards: the two differ when a later item or the source panics). Not '
                  'decided: that a panic occurs exactly when more than N distinct keys arrive (follows from C03 + C05).',
         'note': BASE,
     },
     'C20': {
         'engine': SCHEMA,
         'technique': 'abstract interpretation of the MIR of the serde feature build: serializer/visitor call discipline and error propagation',
-        'level': 'Partial (level other; configuration --features serde). Serialize: the serializer is told Some(len()) '
+        'level': 'Partial (level other; configurations --features serde in the dev AND the release profile, so that work placed inside debug_assert! is seen to vanish). Serialize: the serializer is told Some(len()) '
                  'exactly once, exactly one entry/element consisting of the key (and value) of one stored slot is '
                  'emitted per element of the full prefix, every serializer error is propagated (the loop goes on only '
                  'after the call result was examined and found Ok), the result is that of '
